@@ -42,6 +42,11 @@ def has_finished(data: bytes) -> bool:
     return False
 
 
+def hs_side(hs_in_log, d):
+    """is the handshake traffic secret of side d in the key log?  hs_in_log: True / False / 'both' / 'none' / 'c' / 's'"""
+    return hs_in_log in (True, "both", d)
+
+
 HRR_RANDOM = bytes.fromhex("cf21ad74e59a6111be1d8c021e65b891c2a211167abb8c5e079e09e2c8a8339c")
 
 
@@ -69,7 +74,7 @@ class TlsConn:
             self.secrets = {lab: g(R.HLEN[suite.prf]) for lab in R.LABELS13}
             self.keylog = R.keylog_lines(ver, self.cr, secrets13={
                 k: v for k, v in self.secrets.items()
-                if shape.get("hs_in_log", True) or "HANDSHAKE" not in k})
+                if "HANDSHAKE" not in k or hs_side(shape.get("hs_in_log", True), "c" if k.startswith("CLIENT") else "s")})
             mk = lambda lab: R.DirState(suite, ver, *R.tls13_traffic_keys(suite, self.secrets[lab]), None, rnd=g)
             self.hs = {"c": mk("CLIENT_HANDSHAKE_TRAFFIC_SECRET"), "s": mk("SERVER_HANDSHAKE_TRAFFIC_SECRET")}
             self.ap = {"c": mk("CLIENT_TRAFFIC_SECRET_0"), "s": mk("SERVER_TRAFFIC_SECRET_0")}
@@ -83,6 +88,10 @@ class TlsConn:
             self.kb = kb
             self.cur = {"c": R.DirState(suite, ver, kb["ckey"], kb["civ"], kb["cmac"], self.etm, rnd=g),
                         "s": R.DirState(suite, ver, kb["skey"], kb["siv"], kb["smac"], self.etm, rnd=g)}
+        if shape.get("compression") == 1 and ver != R.TLS13:      # DEFLATE negotiated: every protected record is compressed first
+            import zlib
+            for d in "cs":
+                self.cur[d].comp = zlib.compressobj()
         self._handshake()
 
     # ---------------------------------------------------------------- plumbing
